@@ -456,6 +456,21 @@ def probes(R):
     probe(('norm', A0), 1, 'symbolic', 'symbolic-sqrt', 'norm under register(symbolic=True)')
     probe(('meth2', '__rmul__', A0, A1), 2, 'register', 'explicit-reflected-call', 'explicit call of the reflected member __rmul__')
     probe(('call', 0, [A0, ('num', 2)]), 1, 'register', 'call-number-argument', 'a registered function called with a plain number argument')
+    # Python's own int semantics on a coefficient of the plain function versus a recorder operator: a.e1 ^ a.e2 is
+    # int xor in f (5 ^ 0 = 5) and the outer product of two scalar recorders in the compiled function (0)
+    probe(('infix', '^', ('coeff', A0, 'e1'), ('coeff', A0, 'e2')), 1, 'register', 'coefficient-int-semantics',
+          'bitwise operator between two coefficients')
+    # control flow on a recorder: it has no __bool__, so `a if a else b` always takes the first branch
+    e = alg.multivector(keys=(), values=[])
+    env2 = dict(env)
+    exec('def probe_flow(a, b):\n    return a if a else b\n', env2)
+    kp, plain = run_one(env2['probe_flow'], [e, b], 'plain', alg)
+    k2, got = run_one(env2['probe_flow'], [e, b], 'register', alg)
+    if kp == 'ok' and k2 == 'ok' and not same_items(plain, got, exact=True):
+        R.violation({'clause': 'control-flow', 'route': 'register'},
+                    {'algebra': spec, 'src': 'a if a else b', 'params': 2, 'operands': [[], ops[1]], 'exact': True},
+                    f'def f(a, b): return a if a else b with a stored-empty a: f returns {plain} (= b), alg.register(f) returns {got} '
+                    f'(a recorder is always truthy)')
     # a lambda cannot be registered at all
     lam = lambda x: x * x                                    # noqa: E731
     kp, plain = run_one(lam, [a], 'plain', alg)
@@ -549,8 +564,9 @@ def replay(R, rec):
         return run_one(lambda x: x * x, [a], 'register', alg)[0] == 'ok'
     if 'tree' not in r:
         env['Fraction'] = Fraction
-        exec(f'def replay_f(a):\n    return {r["src"]}\n', env)
-        f, nargs = env['replay_f'], 1
+        nargs = r.get('params', 1)
+        exec(f'def replay_f({", ".join(NAMES[:nargs])}):\n    return {r["src"]}\n', env)
+        f = env['replay_f']
         tree = None
     else:
         def tup(t):
